@@ -348,7 +348,7 @@ func (S *Specs) LoadFile(path string, goFile bool) error {
 			r := regexp.MustCompile(`^call\s+(\S+)\s*:\s*assert\s+(.*)$`).FindStringSubmatch(rest)
 			if r == nil {
 				// at recv field#n: assert E   (blocking receive on the channel loaded from that struct field)
-				r = regexp.MustCompile(`^((?:recv|send)\s+\S+)\s*:\s*assert\s+(.*)$`).FindStringSubmatch(rest)
+				r = regexp.MustCompile(`^((?:recv|selrecv|send)\s+\S+)\s*:\s*assert\s+(.*)$`).FindStringSubmatch(rest)
 				if r != nil {
 					r[1] = strings.Join(strings.Fields(r[1]), " ")
 				}
